@@ -195,6 +195,62 @@ func ruleRCWriters(c *Ctx) {
 		}
 	}
 	c.Floor("store writes in package mpt", n, 6)
+	// the stored counter is the base of every update whose cached base is zero: an entry created by addRef/removeRef
+	// has initial == 0 whether or not the node already has a record (the cache is dropped by Collapse after every
+	// flush, by restarts and state jumps), so whenever the cached base is zero the record is looked up before the
+	// delta is folded and written - for additions as well as for removals
+	if fd := c.P.Func("pkg/core/mpt", "Trie", "updateRefCount"); fd == nil {
+		c.Lost("updateRefCount.base-from-store.anchor", "Trie.updateRefCount not found")
+	} else {
+		f := c.P.NewFuncCFG(fd)
+		sites := f.CallSites("pkg/core/mpt.getFromStore")
+		for i, st := range sites {
+			key := fmt.Sprintf("updateRefCount.base-from-store#%d", i+1)
+			// the if statements the call sits in
+			var conds []ast.Expr
+			var stack []ast.Node
+			ast.Inspect(fd.Decl.Body, func(n ast.Node) bool {
+				if n == nil {
+					stack = stack[:len(stack)-1]
+					return true
+				}
+				if n == ast.Node(st.call) {
+					for k, a := range stack {
+						if is, ok := a.(*ast.IfStmt); ok && k+1 < len(stack) && stack[k+1] == ast.Node(is.Body) {
+							conds = append(conds, is.Cond)
+						} else if ok {
+							conds = append(conds, &ast.UnaryExpr{Op: token.NOT, X: is.Cond}) // else arm
+						}
+					}
+				}
+				stack = append(stack, n)
+				return true
+			})
+			var atoms []atom
+			for _, cnd := range conds {
+				atoms = append(atoms, condAtoms(cnd)...)
+			}
+			extra := ""
+			zeroTest := false
+			for _, at := range atoms {
+				be, ok := ast.Unparen(at.e).(*ast.BinaryExpr)
+				if ok && be.Op == token.EQL && f.Mentions(at.e, st.blk)["local<-pkg/core/mpt#initial"] || ok && be.Op == token.EQL && f.Mentions(at.e, st.blk)["pkg/core/mpt#initial"] {
+					zeroTest = true
+					continue
+				}
+				extra = types.ExprString(at.e)
+			}
+			switch {
+			case extra != "":
+				c.Fail(key, c.P.Pos(st.call.Pos()), "updateRefCount looks the stored counter up only when `"+extra+"` also holds: an entry with a zero cached base whose node already has a record (same bytes stored by an earlier block, cache dropped by Collapse or a restart in between) is then written with its delta as the whole count")
+			case !zeroTest && len(atoms) > 0:
+				c.Unclassified(key, c.P.Pos(st.call.Pos()), "the condition guarding the lookup is not a zero test of the cached base")
+			default:
+				c.OK(key, c.P.Pos(st.call.Pos()), "the stored counter is looked up whenever the cached base is zero, nothing else decides")
+			}
+		}
+		c.Floor("stored-counter lookups in updateRefCount", len(sites), 1)
+	}
 	// GC deletes only records that are inactive and not newer than the GC index
 	gc := c.P.Func("pkg/core/stateroot", "Module", "GC")
 	if gc == nil {
@@ -237,6 +293,92 @@ func ruleRCWriters(c *Ctx) {
 			c.Fail("GC.drop."+g.ID, c.P.Pos(lit.Pos()), "stateroot GC can delete a node record without the check: "+res.Msg, res.Path...)
 		}
 	}
+	// boundary: a record that became inactive at height h belongs to every state below h. GC(index) keeps the states
+	// from index on, so the record goes exactly when h <= index: the comparison of the decoded height with the GC
+	// index is folded over h - index in -3..3 (constant offsets on either side included) and must send precisely the
+	// non-positive differences to the deleting exit.
+	var idxObj types.Object
+	if ps := gc.Decl.Type.Params; ps != nil && len(ps.List) > 0 && len(ps.List[0].Names) > 0 {
+		idxObj = gc.Pkg.TypesInfo.ObjectOf(ps.List[0].Names[0])
+	}
+	dropBlocks := blocksOf(drops)
+	nb := 0
+	for _, b := range f.G.Blocks {
+		if !b.Live {
+			continue
+		}
+		cond := f.Cond(b)
+		if cond == nil || len(b.Succs) != 2 {
+			continue
+		}
+		be, ok := ast.Unparen(cond).(*ast.BinaryExpr)
+		if !ok {
+			continue
+		}
+		switch be.Op {
+		case token.LSS, token.GTR, token.LEQ, token.GEQ:
+		default:
+			continue
+		}
+		mentionsIdx := func(e ast.Expr) bool {
+			found := false
+			ast.Inspect(e, func(n ast.Node) bool {
+				if id, ok := n.(*ast.Ident); ok && idxObj != nil && f.Info.ObjectOf(id) == idxObj {
+					found = true
+				}
+				return true
+			})
+			return found
+		}
+		hx := f.Mentions(be.X, b)["encoding/binary.(littleEndian).Uint32"]
+		hy := f.Mentions(be.Y, b)["encoding/binary.(littleEndian).Uint32"]
+		ix, iy := mentionsIdx(be.X), mentionsIdx(be.Y)
+		if !((hx && iy) || (hy && ix)) {
+			continue
+		}
+		nb++
+		_, offX, okX := linearForm(f, be.X, 0)
+		_, offY, okY := linearForm(f, be.Y, 0)
+		if !okX || !okY {
+			c.Unclassified("GC.drop.boundary", c.P.Pos(be.Pos()), "the height comparison is not of the form value+const OP value+const")
+			continue
+		}
+		tDrop := reachesAny(f, b.Succs[0], dropBlocks)
+		fDrop := reachesAny(f, b.Succs[1], dropBlocks)
+		if tDrop == fDrop {
+			c.Unclassified("GC.drop.boundary", c.P.Pos(be.Pos()), "neither outcome of the height comparison is the deleting one")
+			continue
+		}
+		bad := ""
+		for d := int64(-3); d <= 3; d++ { // d = h - index
+			l, r := d+offX, offY // h on the left
+			if hy {
+				l, r = offX, d+offY // index on the left
+			}
+			var v bool
+			switch be.Op {
+			case token.LSS:
+				v = l < r
+			case token.GTR:
+				v = l > r
+			case token.LEQ:
+				v = l <= r
+			case token.GEQ:
+				v = l >= r
+			}
+			dropped := v == tDrop
+			if dropped != (d <= 0) {
+				bad = fmt.Sprintf("a record that became inactive at height index%+d is %s", d, map[bool]string{true: "deleted although the state at the GC height still uses it", false: "kept although no retained state uses it"}[dropped])
+				break
+			}
+		}
+		if bad != "" {
+			c.Fail("GC.drop.boundary", c.P.Pos(be.Pos()), "stateroot GC compares the deactivation height with the GC index off by one: "+bad)
+		} else {
+			c.OK("GC.drop.boundary", c.P.Pos(be.Pos()), "records are deleted exactly when they became inactive at or before the GC index")
+		}
+	}
+	c.Floor("height comparisons in the GC callback", nb, 1)
 }
 
 // ---------------------------------------------------------------------------
